@@ -104,4 +104,24 @@ pub proof fn lemma_sources_prefix(reg: &TypeRegistry, a: Seq<Region>, b: Seq<Reg
 pub open spec fn build_base_functions_ok(reg: &TypeRegistry, regions: Seq<Region>, vft: Option<TypeVftable>, assoc: Seq<Function>) -> bool {
     exists|nb: int| 0 <= nb <= assoc.len() && #[trigger] base_functions_ok(reg, regions, vftable_names(vft), assoc.take(nb))
 }
+/// the re-exposed functions have pairwise different names, none of which is a name of the type's own vftable functions:
+/// every one of them is *callable* under the name the rule gives it (C07; two functions of the same name are not - F26)
+pub open spec fn names_fresh(used0: Set<String>, fs: Seq<Function>) -> bool {
+    &&& forall|i: int, j: int| 0 <= i < j < fs.len() ==> (#[trigger] fs[i]).name != (#[trigger] fs[j]).name
+    &&& forall|i: int| 0 <= i < fs.len() ==> !used0.contains((#[trigger] fs[i]).name)
+}
+pub proof fn lemma_names_fresh_push(used0: Set<String>, fs: Seq<Function>, f: Function)
+    requires names_fresh(used0, fs), !used0.contains(f.name), !names_set(fs).contains(f.name),
+    ensures names_fresh(used0, fs.push(f)),
+{
+    let g = fs.push(f);
+    assert forall|i: int, j: int| 0 <= i < j < g.len() implies (#[trigger] g[i]).name != (#[trigger] g[j]).name by {
+        if j == fs.len() {
+            if g[i].name == f.name {
+                assert(names_of(fs)[i] == f.name);
+                assert(names_of(fs).contains(f.name));
+            }
+        }
+    }
+}
 }
